@@ -23,6 +23,16 @@ TEXT = {
    text='All 14 stages and StdErr-wrapped variants: all interleavings of producer program(s), consumer receives, virtual-clock advances and one cancel for inputs of length 0-2 (quick) / 0-3 (thorough) and capacities 0-3, the same without cancel, and seed-random longer scripts with bursts, absent consumers and unclosed inputs. At every quiescent point what was delivered must be a prefix of the uncancelled result and nothing may have closed early; the completion end game requires all channels closed and no library goroutine left (pacer excepted); the cancellation end game (cancel, inputs closed, nobody receiving) requires the census to be empty within the stage\'s bound of virtual ticks and every channel to report closed when finally drained. A panic in a library goroutine kills the child and is attributed through the write-ahead log.',
    note='Known finding F6 (Fold delivers a partial accumulator after cancel) is listed in known_findings.json. Emit\'s exit bound after cancel is 2*cap+2+#failing indices ticks (select may legally prefer a ready send).',
    ref='DESIGN.md §4, §6 C06'),
+ 'C07': dict(
+   technique='fault enumeration: every subset of failing positions up to the bound x stage x mode x capacity x consumer discipline, run in synctest bubbles; list model with failure bitmap; errors are unique ids so exactly-once is decidable; race detector on',
+   text='For every input length 0-6 (quick) / 0-8 (thorough) ALL 2^n subsets of failing positions are injected into Map and FMap under Lift/LiftF and Try/TryF at capacities 0,1,2,4 under several consumer disciplines (values first, errors first, alternating, random, bursts, two always-ready consumers); Emit gets every failure bitmap over its call indices in both modes and Unfold fails at every single orbit position (fail-fast); random longer inputs with failure densities 0-100% follow. Values, errors (in order, exactly once), user-function calls (nothing after the first failure under fail-fast), closure of both channels and absence of leftover goroutines are compared with the model.',
+   note='The proviso of the property (the error channel is read) is honoured: the end game drains both channels concurrently. Unfold under Try is not exercised (the property restricts Unfold to fail-fast).',
+   ref='DESIGN.md §6 C07'),
+ 'C08': dict(
+   technique='environment-move scheduler in synctest bubbles with sequence-numbered send completions vs cancel; FIFO/conservation checker on unique ids; porcupine linearizability check of real-time multi-sender/multi-receiver histories against a FIFO-queue model; real-time soak; race detector on',
+   text='pipe.New is driven by scripts that empty and refill the queue repeatedly, park values in the input buffer right before cancel (sends performed by the cancelling goroutine itself), cancel with backlog and slow receiver, close the send side with backlog / racing a receive / racing cancel, build backlogs to 10^4, at capacities 0-8 with 1-3 senders. Online: no send may be pending at a quiescent point before cancel/close and nothing closes early; final: the drained sequence is an order-preserving duplicate-free selection of what was sent, every send completed before cancel() is delivered, the receive side closes. 300 (quick) / 6000 (thorough) concurrent real-time histories are checked with porcupine, plus a 60k / 600k value soak.',
+   note='Scripts in which a user send can race the library\'s close of the send side run in the plain build only (the race detector reports close-vs-send, a documented consequence of the API); everything else also runs under -race. A porcupine timeout is inconclusive.',
+   ref='DESIGN.md §6 C08'),
  'C14': dict(
    technique='reference-model monitor: real combinators drained by the documented loop vs strict list interpreter of the same expression tree; per-node callback-argument log; logical step budget for runaway loops',
    text='All expression trees to depth 3 over a leaf/function alphabet plus seed-random trees to depth 7 are built from fresh leaves, drained and run through ForEach with a visitor failing at several positions; result, visited prefix, returned error, callback arguments and source slices are compared with a list interpreter. Exploration, exhaustive on the small bound.',
